@@ -13,7 +13,9 @@ U3: every call is one event judged by Trace_Rounding.tla (Rounding.tla over IEEE
 The driver never decides a clause: it logs the argument's raw _mpf_ tuple / the input bit patterns and the
 result's bit pattern.  Notes printed by the spec (sub_not_rn, drift, ...) are statistics.
 """
+import concurrent.futures as cf
 import json
+import multiprocessing
 import os
 import random
 import warnings
@@ -390,6 +392,16 @@ class BackendDriver:
                     return [(f(*o), "") for o in ops]
                 if mode == "array":
                     cols = [numpy.array([o[i] for o in ops], dtype=bits.FLOAT[fmt]) for i in range(len(ops[0]))]
+                    n = len(ops)
+                    if n >= 6 and n % 2 == 0 and (n // 2) % 3 != 1:
+                        # the same operands as a 2-D array in a layout that is not C-contiguous (a transposed view): element
+                        # (i, j) of the result belongs to element (i, j) of the inputs, whatever the memory order
+                        cols2 = [numpy.ascontiguousarray(c.reshape(2, n // 2).T).T for c in cols]
+                        assert not cols2[0].flags.c_contiguous
+                        res = f(*cols2)
+                        if not (isinstance(res, numpy.ndarray) and res.shape == (2, n // 2)):
+                            return [(None, "ArrayProtocol")] * n
+                        return [(res[i // (n // 2), i % (n // 2)], "") for i in range(n)]
                     res = f(*cols)
                     if not (isinstance(res, numpy.ndarray) and res.shape == (len(ops),)):
                         return [(None, "ArrayProtocol")] * len(ops)
@@ -416,6 +428,41 @@ class BackendDriver:
                             b=bits.fbits(o[1], fmt) if len(o) > 1 else [], flush=sh["flush"], xp=sh["xp"], xm=sh["xm"],
                             r=rb, raised=raised, mode=sh["mode"], cls=sh["cls"], pass_zero=pass_zero))
         return out
+
+
+def _history_child(args):
+    """One history in a forked child (what it leaves in the namespace's function cache dies with it): the module default says
+    flush, an earlier user asks numpy_with_mpmath().<fn> without options, then an explicit flush_subnormals=False request
+    for the same function is made - the explicit option must be honoured (events of shape flush="false")."""
+    eid0, seed = args
+    import_repo()
+    from functional_algorithms import utils
+    rng = random.Random(seed)
+    utils.default_flush_subnormals = True
+    out = []
+    eid = eid0
+    for fn, attr in (("pos", "positive"), ("neg", "negative"), ("sq", "square")):
+        with warnings.catch_warnings(), numpy.errstate(all="ignore"):
+            warnings.simplefilter("ignore")
+            try:
+                getattr(utils.numpy_with_mpmath(), attr)(numpy.float32(1.5))       # the earlier user
+            except Exception:  # noqa
+                pass
+        bd = BackendDriver(utils)
+        bd.func = lambda fn_, flush, xp, xm, pz, attr=attr: getattr(utils.numpy_with_mpmath(flush_subnormals=False), attr)
+        for fmt in FMTS:
+            for cls in ("sub", "minsub", "minnormal", "normal"):
+                sh = dict(fmt=fmt, fn=fn, flush="false", xp=0, xm=0, mode="scalar", cls=cls)
+                ops = [operands(fmt, fn, cls, rng) for _ in range(3)]
+                evs = bd.events(eid, sh, ops, False)
+                eid += len(evs)
+                out += evs
+    return out
+
+
+def history_events(eid0, seed):
+    with cf.ProcessPoolExecutor(max_workers=1, mp_context=multiprocessing.get_context("fork")) as ex:
+        return ex.submit(_history_child, (eid0, seed)).result()
 
 
 # --------------------------------------------------------------------------- verdict plumbing
@@ -530,6 +577,9 @@ def run(tier, seed):
     mp = Mp()
     md = M2FDriver(utils, mp)
     bd = BackendDriver(utils)
+    # the history runs first, in a child forked while this process has not yet constructed any backend function (the child
+    # inherits the parent's function caches); its events are validated with the backend events below (ids above 10^8)
+    hist_evs = history_events(10 ** 8, seed)
     stats = Stats()
     per_shape = 20 if quick else 520
     n_random = 21000 if quick else 600000
@@ -595,8 +645,10 @@ def run(tier, seed):
             flush_batch()
     n_m2f = eid
     # backend
-    for sh in be_shapes:
-        ops = [operands(sh["fmt"], sh["fn"], sh["cls"], rng) for _ in range(per_be)]
+    for shi, sh in enumerate(be_shapes):
+        # (array calls of one shape in four carry at least six elements, so that a two-dimensional non-contiguous layout exists)
+        nops = max(per_be, 6) if (sh["mode"] == "array" and shi % 4 == 0) else per_be
+        ops = [operands(sh["fmt"], sh["fn"], sh["cls"], rng) for _ in range(nops)]
         evs = bd.events(eid, sh, ops, rng.random() < 0.3)
         eid += len(evs)
         events += evs
@@ -608,6 +660,8 @@ def run(tier, seed):
         if evs and evs[0]["id"] % 4999 < len(evs):
             chk.sample(evs[0])
         flush_batch()
+    events += hist_evs
+    stats.by_fn["history"] = len(hist_evs)
     flush_batch(force=True)
     n_be = eid - n_m2f
     # ---- notes and statistics
